@@ -190,6 +190,14 @@ func concrete(c cell, path string, k, j int) (interface{}, error) {
 			return "a b", nil
 		case "sp4":
 			return "a  b", nil
+		case "kwt":
+			return "true", nil
+		case "kwf":
+			return "FALSE", nil
+		case "kwl":
+			return "left", nil
+		case "kwc":
+			return ",", nil
 		}
 		if path == "text" {
 			return textString(c.Len, k, j), nil
